@@ -10,6 +10,9 @@ Three independent comparisons per case (kept apart, BUILDING.md §6):
       their dims  -> R.oracle_fail;
   (M) extracted model (Model/C02_ShapeOps) vs implementation: outcome class, batch sizes, names, every leaf shape of
       the whole result tree  -> R.mismatch.
+Deepening round: (S2) Spec/C02_TorchElem (element maps) vs real torch on arange proxies; (M2) Model/C02_Elem.leaf_calls
+(the torch call made on every tensor + its table of source positions) vs the content of the implementation's result
+entries; (M3) the stack dim / batch size of lazy results vs C08's transcription of _permute/_transpose/_squeeze/_unsqueeze.
 """
 import itertools
 import json
@@ -318,6 +321,61 @@ def td_apply(case, tds, out=None):
             return torch.cat(list(td), a["dim"], out=out)
         return _T["TensorDict"].cat(list(td), a["dim"]) if sp == "cls" else torch.cat(list(td), a["dim"])
     raise KeyError(op)
+
+
+# operations whose ELEMENT map is stated in Spec/C02_TorchElem (e_src) and proved to be batch_map (x) id_feat
+ELEM_OPS = ("permute", "transpose", "squeeze", "unsqueeze", "expand", "view", "reshape", "flatten", "unflatten", "repeat",
+            "repeat_interleave")
+ELEM_MAX = 1500
+
+
+def elem_case(case):
+    """the calls whose element table is compared (root call as torch sees it)"""
+    op, a = case["op"], case["args"]
+    if op not in ELEM_OPS:
+        return False
+    if op == "permute" and len(a["dims"]) != len(case["bs"]):
+        return False
+    if op == "repeat_interleave" and (a["dim"] is None or not case["bs"]):
+        return False
+    return True
+
+
+def lazy_modelled(case):
+    op, a = case["op"], case["args"]
+    if op == "permute":
+        return len(a["dims"]) == len(case["bs"])
+    if op == "squeeze":
+        return a["dim"] is not None
+    return op in ("transpose", "unsqueeze")
+
+
+def lazy_line(case):
+    bs, k = list(case["bs"]), case["lazy_dim"]
+    return sx([Sym("lazy"), Sym(case["op"]), k, bs[:k] + bs[k + 1:], bs[k]] + args_sx_plain(case))
+
+
+def args_sx_plain(case):
+    op, a = case["op"], case["args"]
+    if op == "squeeze":
+        return [a["dim"]]
+    return args_sx(case)
+
+
+def leaf_tables(res):
+    """depth-first (sorted keys) list of [shape, source positions] of the tensors of a result tree: an entry built by
+    leaf_of holds (p * 16 + key id) where p is the row-major position in the INPUT entry"""
+    T = _T
+    if not isinstance(res, T["TDBase"]) and hasattr(res, "_tensordict"):
+        res = res._tensordict
+    out = []
+    for k in sorted(res.keys()):
+        v = res.get(k)
+        if isinstance(v, T["torch"].Tensor):
+            out.append([list(v.shape), (v.flatten() // 16).tolist()])
+        else:
+            out.extend(leaf_tables(v))
+    return out
 
 
 MULTI_OUT = ("unbind", "split", "chunk")
@@ -696,6 +754,18 @@ def run_case(case):
     r, v = tor[1], res[1]
     bs = case["bs"] if op not in MULTI_IN else case["shapes"][0]
     node = PATTERNS[case["pat"]]
+    if case["cont"] == "lazy" and lazy_modelled(case):
+        # (M3) the stack-dim bookkeeping of the lazy result against C08's transcription (C02_lazy_permute speaks about it)
+        out["lazy_obs"] = ["ok", int(v.stack_dim), list(v.batch_size)] if isinstance(v, T["Lazy"]) else ["other", type(v).__name__]
+    if elem_case(case) and r.numel() <= ELEM_MAX:
+        out["tor_flat"] = r.flatten().tolist()
+        if case["cont"] in MODELLED_CONT and v is not inp:
+            try:
+                lt = leaf_tables(v)
+                if sum(len(x[1]) for x in lt) <= 4 * ELEM_MAX:
+                    out["leaf_tabs"] = lt
+            except Exception:  # noqa: BLE001
+                pass
     if isinstance(r, (tuple, list)):
         if not isinstance(v, (tuple, list)):
             out["fails"].append(("result-type", f"a sequence of {len(r)} results is demanded, got {type(v).__name__}"))
@@ -1097,6 +1167,28 @@ def config_for(rng, bs, op, shapes=None):
     return c
 
 
+def lazy_stream(rng, quick):
+    """every stack dim x every (full) permutation / pair of dims / dim of the lazy sub-domain (batch sizes over {2, 3}):
+    the stack-dim arithmetic of _permute / _transpose / _squeeze / _unsqueeze is where a slip hides from involutions"""
+    out = []
+    for n in (1, 2, 3, 4):
+        for bs in itertools.product((2, 3), repeat=n):
+            for k in range(n):
+                base = {"cont": "lazy", "lazy_dim": k, "names": "none", "locked": False, "bs": list(bs)}
+                for p in itertools.permutations(range(n)):
+                    dims = [d - n if rng.random() < 0.3 else d for d in p]
+                    out.append(dict(base, pat=rng.choice(["flat", "nest1", "wide"]), op="permute", args={"dims": dims, "sp": rng.choice(["star", "tuple", "fn"])}))
+                for d0 in range(-n, n):
+                    for d1 in range(-n, n):
+                        out.append(dict(base, pat=rng.choice(["flat", "nest0"]), op="transpose", args={"d0": d0, "d1": d1, "sp": "m"}))
+                for d in range(-n - 1, n + 1):
+                    out.append(dict(base, pat="flat", op="unsqueeze", args={"dim": d, "sp": "m"}))
+    if not quick:
+        return out
+    return (_sample(rng, [c for c in out if c["op"] == "permute"], 300) + _sample(rng, [c for c in out if c["op"] == "transpose"], 200)
+            + _sample(rng, [c for c in out if c["op"] == "unsqueeze"], 100))
+
+
 def gen_cases(rng, quick, budget):
     """the grid: every batch shape x every op x the argument lists above, each with a drawn configuration.
     quick: a stratified sample (per op) of [budget] cases; thorough: the whole grid (argument lists capped per bs)."""
@@ -1134,8 +1226,8 @@ def gen_cases(rng, quick, budget):
             w = {0: 0.06, 1: 0.14, 2: 0.25, 3: 0.30, 4: 0.25}
             for rk, l in by_rank.items():
                 out.extend(_sample(rng, l, max(1, int(share * w[rk]))))
-        return out
-    return [c for L in per_op.values() for c in L]
+        return out + lazy_stream(rng, quick)
+    return [c for L in per_op.values() for c in L] + lazy_stream(rng, quick)
 
 
 # ------------------------------------------------------------------ restrictions (tensordict's documented, narrower domain)
@@ -1473,6 +1565,21 @@ def model_line(case, in_snap, out_snap=None):
     return sx([Sym("model"), sym, snap_sx(in_snap)] + args_sx(case))
 
 
+def elem_args_sx(case):
+    op, a = case["op"], case["args"]
+    if op == "repeat_interleave":
+        return [a["r"], a["dim"]]
+    return args_sx(case)
+
+
+def elem_line(case):
+    return sx([Sym("elem"), Sym(case["op"].replace("_", "-")), list(case["bs"])] + elem_args_sx(case))
+
+
+def calls_line(case, in_snap):
+    return sx([Sym("calls"), Sym(case["op"].replace("_", "-")), snap_sx(in_snap)] + elem_args_sx(case))
+
+
 def model_canon(p):
     """parsed model output -> the canonical form of out['impl']"""
     if p == "diverges":
@@ -1551,7 +1658,9 @@ def main(R):
                      "lazy stacks: see notes/C02-selftest.md"]
     R.trusted = ["Spec/C02_TorchShape validated against real torch on every generated case of this run (SPEC-MISMATCH = exit 2)",
                  "Spec/PySlice (shared) for the slices taken by split",
-                 "harness/c02.py oracle: index-proxy construction of the demanded entries"]
+                 "harness/c02.py oracle: index-proxy construction of the demanded entries",
+                 "Spec/C02_TorchElem (element maps of torch) validated against real torch on every legal generated call of its operations (SPEC-MISMATCH = exit 2)",
+                 "Model/C08_Lazy (C08's transcription of the lazy shape ops, read-only) compared with the lazy results' stack dim and batch size in this run"]
     R.step_prove()
     ok = R.step_driver()
     _imports()
@@ -1634,6 +1743,44 @@ def main(R):
         R.count("model-compared")
         if mo != io:
             R.mismatch("td-" + c["op"], c, io, mo)
+    # (S2) Spec/C02_TorchElem against real torch: the source position of every result position of the root call;
+    # (M2) the torch calls the model says are made on the tensors (Model/C02_Elem.leaf_calls) against the content of the
+    #      result entries of the implementation
+    if ok:
+        el_idx = [i for i, r in enumerate(results) if "tor_flat" in r]
+        el_res = R.model([elem_line(cases[i]) for i in el_idx], shards=12) if el_idx else []
+        for j, i in enumerate(el_idx):
+            R.count("elem-spec-compared")
+            got = el_res[j]
+            want = results[i]["tor_flat"]
+            if not (isinstance(got, list) and got and got[0] == "table" and list(got[1]) == want):
+                spec_bad += 1
+                R.count("spec-mismatch:elem:" + cases[i]["op"])
+                if R.hist["spec-mismatch:elem:" + cases[i]["op"]] <= 6:
+                    print(f"SPEC-MISMATCH Spec/C02_TorchElem {elem_line(cases[i])}: torch {want[:40]} spec {str(got)[:200]}", file=sys.stderr)
+        cl_idx = [i for i, r in enumerate(results) if "leaf_tabs" in r and not r["fails"] and not r.get("restricted")
+                  and modelled(cases[i]) and "in_snap" in r]
+        cl_res = R.model([calls_line(cases[i], results[i]["in_snap"]) for i in cl_idx], shards=12) if cl_idx else []
+        for j, i in enumerate(cl_idx):
+            R.count("leaf-calls-compared")
+            got = cl_res[j]
+            mo = [[list(x[1]), list(x[2][1])] if isinstance(x[2], list) and x[2] and x[2][0] == "table" else ["none", x]
+                  for x in got] if isinstance(got, list) else ["model-error", got]
+            io = results[i]["leaf_tabs"]
+            R.traces += 1
+            if mo != io:
+                R.mismatch("td-leaf-calls-" + cases[i]["op"], cases[i], [x[0] for x in io] + [sum(len(x[1]) for x in io)], str(mo)[:400])
+    if ok:
+        lz_idx = [i for i, r in enumerate(results) if "lazy_obs" in r and not r["fails"]]
+        lz_res = R.model([lazy_line(cases[i]) for i in lz_idx], shards=4) if lz_idx else []
+        for j, i in enumerate(lz_idx):
+            R.count("lazy-stack-dim-compared")
+            R.count("lazy-stack-dim-compared:" + cases[i]["op"])
+            got = lz_res[j]
+            mo = ["ok", got[1], list(got[2])] if isinstance(got, list) and got and got[0] == "ok" else ["model", got]
+            R.traces += 1
+            if mo != results[i]["lazy_obs"]:
+                R.mismatch("lazy-" + cases[i]["op"], cases[i], results[i]["lazy_obs"], mo)
     if spec_bad:
         raise RuntimeError(f"{spec_bad} SPEC-MISMATCH lines: Spec/C02_TorchShape disagrees with torch (machinery bug)")
 
